@@ -17,6 +17,9 @@ Restrict(s, S) == IF s = <<>> THEN <<>>
 Prefix(s, n) == SubSeq(s, 1, n)
 \* (total: 0 when x does not occur -- a projection may be inconsistent, the monitor must still give a verdict)
 IndexOf(s, x) == IF \E i \in 1..Len(s) : s[i] = x THEN CHOOSE i \in 1..Len(s) : s[i] = x ELSE 0
+\* a sequence without its earlier duplicates (the last occurrence of every element stays)
+DedupLast(s) == LET idx == {i \in 1..Len(s) : \A j \in (i + 1)..Len(s) : s[j] # s[i]} IN
+                [n \in 1..Cardinality(idx) |-> s[CHOOSE i \in idx : Cardinality({j \in idx : j < i}) = n - 1]]
 MostRecent(lru, k) == Len(lru) > 0 /\ lru[Len(lru)] = k
 
 LInit(cfg) == [budget |-> cfg.budget, lru |-> <<>>, ent |-> <<>>, usage |-> 0]
@@ -89,7 +92,12 @@ Clauses(st, e) ==
                <<"query_does_not_change_residency", post = pre /\ E = {}>>,
                <<"used_key_is_most_recent", k \in post => MostRecent(p.lru, k)>> >>
           [] e.op = "IsAllMemoized" /\ e.exc = "" -> <<
-               <<"query_does_not_change_residency", post = pre /\ E = {}>> >>
+               <<"query_does_not_change_residency", post = pre /\ E = {}>>,
+               \* every listed call that is resident counts as used, in the order of the list (storage_base.py: is_all_memoized asks
+               \* is_memoized for EVERY element, which marks the entry as used)
+               <<"every_listed_resident_key_is_marked_used_in_order",
+                   LET R == DedupLast(SelectSeq(e.keys, LAMBDA k2 : k2 \in post)) IN
+                   Len(p.lru) >= Len(R) /\ SubSeq(p.lru, Len(p.lru) - Len(R) + 1, Len(p.lru)) = R>> >>
           [] e.op \in {"ForgetCall", "ForgetFunction", "ForgetEverything"} /\ e.exc = "" /\ ~e.ro -> <<
                <<"forgotten_scope_not_resident", Scope(st, e) \cap post = {}>>,
                <<"forget_evicts_nothing_else", E = {}>> >>
